@@ -73,4 +73,67 @@ theorem plain_names_untouched (n : String) (h : n ∉ rustKeywords) : emitTok n 
 
 example : emitTok "loop" = .raw "loop" ∧ emitTok "zeta" = .plain "zeta" ∧ validTok (emitTok "try") = true := by decide
 
+/-! ### Program level: scopes, shadowing and duplicate binders under a consistent renaming -/
+
+/-- Name resolution in a scope chain (innermost binder first): which binder a use refers to. -/
+def resolve {α : Type} [DecidableEq α] : List α → α → Option Nat
+  | [], _ => none
+  | y :: ys, x => if y = x then some 0 else (resolve ys x).map (· + 1)
+
+/-- Resolution commutes with any injective map on names. -/
+theorem resolve_map {α β : Type} [DecidableEq α] [DecidableEq β] (f : α → β) (hf : ∀ x y, f x = f y → x = y)
+    (scope : List α) (x : α) : resolve (scope.map f) (f x) = resolve scope x := by
+  induction scope with
+  | nil => rfl
+  | cons y ys ih =>
+    simp only [List.map, resolve]
+    by_cases h : y = x
+    · subst h; simp
+    · have : f y ≠ f x := fun e => h (hf _ _ e)
+      simp [h, this, ih]
+
+/-- Program level: after a consistent (injective) renaming, every use in the emitted Rust resolves to the binder it
+resolved to in the source — including shadowing (first match in the scope chain), at any scope depth and for
+any mix of keyword and non-keyword names. -/
+theorem renamed_use_resolves_to_same_binder (p : Pos) (ρ : String → String) (hρ : ∀ x y, ρ x = ρ y → x = y)
+    (scope : List String) (x : String) :
+    resolve (scope.map fun n => emitAt p (ρ n)) (emitAt p (ρ x)) = resolve scope x :=
+  resolve_map (fun n => emitAt p (ρ n)) (fun _ _ h => hρ _ _ (emit_injective _ _ h)) scope x
+
+/-- … and an unbound name stays unbound: escaping never captures a use (`r#loop` never meets a plain `loop`). -/
+theorem renamed_free_stays_free (p : Pos) (ρ : String → String) (hρ : ∀ x y, ρ x = ρ y → x = y)
+    (scope : List String) (x : String) (h : x ∉ scope) :
+    emitAt p (ρ x) ∉ scope.map fun n => emitAt p (ρ n) := by
+  intro hm
+  rcases List.mem_map.mp hm with ⟨y, hy, e⟩
+  have := hρ _ _ (emit_injective _ _ e)
+  subst this; exact h hy
+
+/-- Distinct binders of one scope (parameters of a function, fields of a model, variants of an enum) stay distinct:
+rustc's duplicate-definition errors appear in the renamed program exactly where the checker reports them. -/
+theorem renamed_scope_nodup (p : Pos) (ρ : String → String) (hρ : ∀ x y, ρ x = ρ y → x = y) (names : List String) :
+    (names.map fun n => emitAt p (ρ n)).Nodup ↔ names.Nodup := by
+  induction names with
+  | nil => simp
+  | cons a as ih =>
+    simp only [List.map, List.nodup_cons, ih]
+    constructor
+    · rintro ⟨h1, h2⟩
+      refine ⟨fun ha => h1 (List.mem_map.mpr ⟨a, ha, rfl⟩), h2⟩
+    · rintro ⟨h1, h2⟩
+      exact ⟨renamed_free_stays_free p ρ hρ as a h1, h2⟩
+
+/-- Every identifier of a renamed program is one rustc accepts, provided each new name is legal and not `Self`. -/
+theorem renamed_program_tokens_valid (p : Pos) (ρ : String → String) (names : List String)
+    (hl : ∀ n ∈ names, (ρ n ∉ reference2021 ∨ ρ n ∈ rustKeywordsLegalInIncan) ∧ ρ n ≠ "Self") :
+    ∀ t ∈ names.map (fun n => emitAt p (ρ n)), validTok t = true := by
+  intro t ht
+  rcases List.mem_map.mp ht with ⟨n, hn, rfl⟩
+  exact emitted_identifier_valid_partial p (ρ n) (hl n hn).1 (hl n hn).2
+
+/-- Shadowing example: inner `loop` shadows outer `loop`; `x` is found one level further out. -/
+example : resolve (["loop", "x", "loop"].map fun n => emitAt .local_ n) (emitAt .local_ "loop") = some 0
+  ∧ resolve (["loop", "x", "loop"].map fun n => emitAt .local_ n) (emitAt .local_ "x") = some 1 := by decide
+
+
 end Incan.Names
